@@ -36,6 +36,15 @@ def run(ctx, chk):
     m = ClientModel(fb, chk, 'C05.E1')
     if not m.ok:
         return
+    # ---- E8 precision: age x drift is formed in double precision. A single-precision value on the way (an `as f32`, an f32
+    # helper, Duration::mul_f32) carries a 24-bit mantissa and rounds to nearest: for ages of minutes and drift rates above
+    # 1 ppm the half-width comes out below bound + drift x age.
+    n_float, narrow = common.single_precision_sites(fb, m.body, (common.SHM,))
+    chk.analysed['call_sites'] += n_float
+    chk.ob('C05.E8', 'now:computed-in-double-precision', not narrow, narrow[0][2] if narrow else m.body.where(0),
+           'single-precision values in now() and what it calls: %s' % (
+               [(a.split('::')[-1], w) for a, _, w in narrow][:4] or 'none (%d float assignments seen, all f64)' % n_float))
+    chk.floor('C05.E8', 'float assignments in now()', n_float, 2)
     n_ok = 0
     for info in m.infos:
         p = info['path']
